@@ -279,7 +279,11 @@ def solo_case(case, i):
 # Error paths of export-like / configuration calls in every lifecycle state (kind indep-faulty, same checks)
 
 ERR_ANY = ["shmemlen", "shmemwrite", "exportxml", "exportxmlbuf", "exportsynth", "dup", "diffbuild", "diffapply",
-           "restrict", "allow", "insertmisc", "distadd", "distget", "refresh"]
+           "restrict", "allow", "insertmisc", "distadd", "distget", "refresh",
+           # hwloc_shmem_topology_adopt of a good file and of every corrupted variant (valid header + foreign ABI word, bad
+           # version / header length / length / address, address range busy, not a shmem file, truncated)
+           "adoptgood", "adoptabi", "adoptabi", "adoptversion", "adopthlength", "adoptlength", "adoptaddr", "adoptbusy",
+           "adoptnonshmem", "adopttrunc"]
 ERR_LOADED = ["setsynthetic", "setxml", "setflags", "setfilter", "setpid", "setcomponents"]
 
 
